@@ -7,7 +7,6 @@ is_authorized -> is_authorized_core -> is_authorized_core_internal (bucket loop)
 from vx.assemble import Fn, Type, Raw, Loop, ClosureRw
 
 PROPERTIES = ['C01', 'C13']
-USES = 'use vstd::std_specs::iter::IteratorSpec;\nuse std::sync::Arc;\n'
 STDMODEL = ['iter.rs', 'hash.rs', 'std.rs']
 HEADER = '#![feature(allocator_api)]'
 AUTHZ = 'cedar-policy-core/src/authorizer.rs'
